@@ -9,8 +9,8 @@
 EXTENDS Naturals, Sequences
 
 \* inputs handed to decompress_zstd, relative to a file with expanded size `size`
-FrameClasses == {"valid", "empty", "garbage", "truncated", "truncated-half", "raw-file",
-                 "expanded-not-framed", "trailing-bytes", "bitflip"}
+FrameClasses == {"valid", "empty", "garbage", "truncated", "truncated-half", "cut", "raw-file",
+                 "expanded-not-framed", "trailing-bytes", "bitflip"}      \* "cut": any proper prefix of the frame
 
 \* what C11 demands of decompress_zstd(input, cap)
 \*   "ok-equal"  must return Ok(F)
